@@ -426,7 +426,7 @@ Section R.
       crack H; inversion H; subst; clear H; cbn;
         match goal with |- context[if ?c then _ else _] => destruct c end; auto; discriminate.
     - cbn [andb negb bind] in H. apply bind_ok in H as (labels & _ & H). inversion H; subst; clear H. cbn.
-      rewrite orb_true_r. discriminate.
+      destruct (negb (ts_eqb (os_ts s) (st_gts st))); cbn; discriminate.
   Qed.
 
   Lemma sample_line_samples st line st' out :
@@ -1502,6 +1502,44 @@ Section R.
               NUM parse_num parse_float parse_int num_lt num_eqb num_isinf num_integral num_huge num_zero num_one num_inf
               ts_float is_word is_space_re is_digit_re st l s name Hr Hm Hn).
     left. eapply pre_nonintegral_rejected; eauto.
+  Qed.
+
+  (* ---- the repaired duplicate suppression: a later exposure of a group is recorded ---- *)
+  (* the sample that moves the group to another timestamp is recorded, and it is then the only member of the duplicate
+     set: the next sample of the group at that timestamp is recorded too unless it is the same series *)
+  Lemma group_step_dedup st name s l st' :
+    group_step st name s = Ok st' -> os_labels s = Some l ->
+    exists gs, (gs = [] \/ gs = st_gts_samples st) /\
+      st_gts_samples st' = (os_name s, sort_kv l) :: (if negb (ts_eqb (os_ts s) (st_gts st)) then [] else gs) /\
+      st_samples st' =
+        (if negb (ts_eqb (os_ts s) (st_gts st))
+            || negb (om_mem_sid (os_name s, sort_kv l) (if negb (ts_eqb (os_ts s) (st_gts st)) then [] else gs))
+         then s :: st_samples st else st_samples st) /\
+      st_gts st' = os_ts s.
+  Proof.
+    intros H Hl. unfold om_group_step in H.
+    apply bind_ok in H as (go & _ & H). apply bind_ok in H as (gd & _ & H).
+    match type of H with (if ?c then _ else _) = _ => destruct c end; [discriminate|].
+    apply bind_ok in H as (gs & Egs & H). unfold om_labels_of in H. rewrite Hl in H. cbn [bind] in H.
+    inversion H; subst; clear H. exists gs. split.
+    - crack Egs; inversion Egs; subst; auto.
+    - cbn. repeat split; reflexivity.
+  Qed.
+
+  Lemma later_exposure_recorded st name s1 s2 l1 l2 st1 st2 :
+    group_step st name s1 = Ok st1 -> ts_eqb (os_ts s1) (st_gts st) = false ->
+    group_step st1 name s2 = Ok st2 ->
+    os_labels s1 = Some l1 -> os_labels s2 = Some l2 ->
+    om_sid_eqb (os_name s2, sort_kv l2) (os_name s1, sort_kv l1) = false ->
+    st_samples st2 = s2 :: s1 :: st_samples st.
+  Proof.
+    intros H1 Ht H2 Hl1 Hl2 Hne.
+    destruct (group_step_dedup st name s1 l1 st1 H1 Hl1) as (g1 & _ & A2 & A1 & _).
+    destruct (group_step_dedup st1 name s2 l2 st2 H2 Hl2) as (g2 & G2 & _ & B1 & _).
+    rewrite Ht in A1, A2. cbn [negb orb] in A1, A2.
+    rewrite B1, A1.
+    destruct (negb (ts_eqb (os_ts s2) (st_gts st1))); [reflexivity|].
+    destruct G2 as [-> | ->]; [reflexivity|]. rewrite A2. cbn [om_mem_sid]. rewrite Hne. reflexivity.
   Qed.
 
   Lemma BadUnit_document pre post st acc :
